@@ -15,6 +15,7 @@ GEN = ['GChecks.v', 'GPolicy.v', 'GParser.v']
 
 ROLES = ['admin', 'member', 'reader', 'old', 'new', 'x']
 ROLESETS = [[r for i, r in enumerate(ROLES) if (m >> i) & 1] for m in range(0, 64, 3)]
+ROLESETS += [['team-\U00020bb7\u91ce'], ['\u00e9quipe', 'x'], ['team-\U00020bb7\u91ce', 'reader']]
 
 
 def mk_defaults(rng):
@@ -44,7 +45,9 @@ def build_defaults(defs):
 
 VALUES = ['role:admin', 'role:member or role:reader', 'rule:admin_required', 'not role:x', '@', '!', '',
           'role:member and (role:reader or role:x)', [['role:admin'], ['role:member', 'role:reader']], [], [['role:x']],
-          ['role:reader']]
+          ['role:reader'],
+          # characters outside ASCII / Latin-1 / the BMP must come through the tools unchanged
+          'role:team-\U00020bb7\u91ce or role:x', 'role:\u00e9quipe', [['role:team-\U00020bb7\u91ce']]]
 
 
 def mk_file(rng, defs, allow_alias=True):
